@@ -33,25 +33,30 @@ From SV Require Import Tables ArgCheck ArgSpec Machine Printer GenTables Ops Bui
 
 (* get_filter_conditions reads exactly the command classes listed in the source on this run *)
 Theorem C19_readable_classes :
-  forall (strip : bytes -> bytes) (has_comma : bytes -> bool)
-    (tolist : bool -> bytes -> list bytes) (is_bracket is_digits : bytes -> bool) 
-    (n : node),
-  cond_tuple strip has_comma tolist is_bracket is_digits n = None <->
-  mem (d_name (node_def n)) gen_readable = false.
+  guarded gen_readable
+    (fun l : list bytes =>
+     forall (strip : bytes -> bytes) (has_comma : bytes -> bool)
+       (tolist : bool -> bytes -> list bytes) (is_bracket is_digits : bytes -> bool)
+       (n : node),
+     cond_tuple strip has_comma tolist is_bracket is_digits n = None <->
+     mem (d_name (node_def n)) l = false).
 Proof. exact ConstFacts.readable_is_the_tuple. Qed.
 Print Assumptions C19_readable_classes.
 
 (* the negation is folded only for the names the source lists *)
 Theorem C19_negation_folding_classes :
-  forall (name : bytes) (args : rtuple),
-  mem name (concat gen_fold_not) = false -> fold_not name args = ROk args.
+  guarded gen_fold_not
+    (fun groups : list (list bytes) =>
+     forall (name : bytes) (args : rtuple),
+     mem name (concat groups) = false -> fold_not name args = ROk args).
 Proof. exact ConstFacts.fold_not_only_there. Qed.
 Print Assumptions C19_negation_folding_classes.
 
 (* get_filter_matchtype tests the classes the source lists *)
 Theorem C19_matchtype_classes :
-  forall n : node,
-  is_named n k_anyof || is_named n k_allof = mem (d_name (node_def n)) gen_matchtype_classes.
+  guarded gen_matchtype_classes
+    (fun l : list bytes =>
+     forall n : node, is_named n k_anyof || is_named n k_allof = mem (d_name (node_def n)) l).
 Proof. exact ConstFacts.matchtype_classes_ok. Qed.
 Print Assumptions C19_matchtype_classes.
 
